@@ -333,7 +333,7 @@ theorem soundE (env : Env) (henv : EnvPlain env) (e : Expr) (hc : coreE e = true
     obtain ⟨⟨hop, hcl⟩, hcr⟩ := hc
     simp only [infer] at h
     exact binopWith_sound hop
-      (fun τ st d st' hW' hτ h' => soundE env henv l hcl (cx.withTy τ) g st d st' hW' (WTcx_with hcx hτ) hg h')
+      (fun τ st d st' hW' _ hτ h' => soundE env henv l hcl (cx.withTy τ) g st d st' hW' (WTcx_with hcx hτ) hg h')
       (fun τ st d st' hW' hτ h' => soundE env henv r hcr (cx.withTy τ) g st d st' hW' (WTcx_with hcx hτ) hg h')
       hW hcx h
   | const c => exact const_sound henv hW hcx h
@@ -416,7 +416,10 @@ theorem soundE (env : Env) (henv : EnvPlain env) (e : Expr) (hc : coreE e = true
             refine ⟨tr, dde || (!arms.isEmpty && dda), ?_, c2, ?_⟩
             · exact synth_match_known a1' hvd hmh b1 c1
             · intro hd; simp [hnee, b3 hd]
-  | mcall _ _ _ | cassign _ _ _ _ _ | fstr _ => simp [coreE] at hc
+  | cassign op ic x p e =>
+    simp only [coreE, Bool.and_eq_true, bne_iff_ne, ne_eq] at hc
+    exact cassign_sound henv hc.1 (fun cx g st d st' a b c h' => soundE env henv e hc.2 cx g st d st' a b c h') hW hcx hg h
+  | mcall _ _ _ | fstr _ => simp [coreE] at hc
 termination_by sizeOf e
 
 theorem soundList (env : Env) (henv : EnvPlain env) (es : List Expr) (hc : coreL es = true) :
